@@ -259,6 +259,16 @@ func capMember(c s2.Point, r2 float64, p s2.Point) int {
 	case d2 >= r2+m:
 		return mOut
 	}
+	// Inside the band. "Near" promises that some point of the cap lies within
+	// ~2·delta of the probe; that is only true where the band is geometrically
+	// thin. Near the antipode of the centre (and for tiny caps) chord² is
+	// insensitive to the angle - a band of m in chord² is m/(2·sinθ) radians wide,
+	// 1e-7 rad for a cap whose chord² is within 1e-14 of 4 - so there the oracle
+	// cannot tell and nothing is asserted.
+	sinT := math.Sqrt(d2 * math.Max(0, 1-d2/4))
+	if m > 2*sinT*tolUV {
+		return mUnknown
+	}
 	return mNear
 }
 
